@@ -21,7 +21,7 @@ CONSTANTS MaxLen
 MustRefuse == {"syntax", "truncated", "utf8", "deep", "number-huge", "envelope-type", "params-type",
                "unknown-method", "wrong-path", "wrong-verb", "bad-content-length"}
 MayIgnore == {"stray-response", "stray-error", "notification-unknown", "blank"}
-Lenient == {"cursor", "header-garbage", "big-string", "version-less", "session-garbage", "dup-header", "id-null"}
+Lenient == {"cursor", "meta-type", "header-garbage", "big-string", "version-less", "session-garbage", "dup-header", "id-null"}
 Classes == MustRefuse \cup MayIgnore \cup Lenient \cup {"good"}
 
 Allowed(c) ==
